@@ -6,6 +6,12 @@ props = [json.loads(l) for l in open(os.path.join(V, "properties.jsonl"))]
 
 # id -> (technique, level text, level note, design ref)
 CLAIMS = {
+ "C02": ("bounded exhaustive enumeration of documents (grammar, seeds, table slice, all single-byte corruptions) x widths x deviation-bounded configurations on the real code; width invariant checked on every line of every successful rendering",
+         "Every document of the bounded grammar, every regression seed and every single-byte corruption of the small documents is rendered at every width in range under every configuration of deviation <= 2 (without overflow / no_link_wrapping) with the plain, rich and trivial decorators; the display width of every output line (string and line APIs) is compared with the requested width.",
+         "Bounds: grammar depth <=2 quick / <=3 thorough, widths <=16 / <=120; corruption = one byte edit over a 14-byte alphabet; trusts unicode-width.", "DESIGN.md §4 C02"),
+ "C03": ("bounded exhaustive enumeration of documents (grammar, structural extras, table slice, all single tag-token corruptions) x widths x configurations on the real code; output token stream compared with a reference visible-text extraction from an independent html5ever TreeSink",
+         "The reference model is a 40-line visible-text walk over the harness's own DOM (built by its own TreeSink from the same bytes, so it stays valid for mis-nested input). For every explored (document, width, configuration) the token characters of the output must equal it as a sequence (table-free documents, raw mode) or as a multiset (tables); under the trivial decorator nothing else but whitespace and borders may appear.",
+         "html5ever's tokenizer/tree builder is shared by subject and oracle. Known finding KF-C03-1 (stray children of ol/dl) is recognised by a fixed classifier.", "DESIGN.md §4 C03"),
  "C04": ("bounded exhaustive enumeration of word sequences x markup splittings x contexts x widths on the real code, compared with a reference greedy wrapper",
          "Every word sequence up to the bound, in every splitting into text nodes/inline elements, block context, width and max_wrap_width, is rendered by the real library and compared line-for-line with a 40-line reference greedy wrapper whose own post-conditions are asserted on every call.",
          "Small-scope: <=4 (quick) / <=5 (thorough) words from a 14-shape menu, widths <=10 / <=40; trusts unicode-width and html5ever's parser.", "DESIGN.md §4 C04"),
